@@ -127,37 +127,84 @@ class SeamWriter {
 // ------------------------------------------------------------------ data (different per thread)
 
 static const char* const kJsonIn[4] = {
-    "{\"a\":[1.5,\"x\\n\"]}",
-    "{\"b\":[-27.25,\"y\\t\"]}",
-    "{\"c\":[3e2,\"z\\\\\"]}",
+    "{\"a\":[1.5e3,\"x\\n\"]}",
+    "{\"b\":[-27.25e-2,\"y\\t\"]}",
+    "{\"c\":[3e20,\"z\\\\\"]}",
     "{\"d\":[40000000000,\"w\\\"q\"]}",
 };
 static const char* const kKey[4] = {"a", "b", "c", "d"};
 static const char* const kFilterIn[4] = {
-    "{\"z\":[9,8],\"a\":[1.5,\"x\\n\"]}",
-    "{\"z\":{\"q\":1},\"b\":[-27.25,\"y\\t\"]}",
-    "{\"c\":[3e2,\"z\\\\\"],\"z\":\"drop\"}",
+    "{\"z\":[9,8],\"a\":[1.5e3,\"x\\n\"]}",
+    "{\"z\":{\"q\":1},\"b\":[-27.25e-2,\"y\\t\"]}",
+    "{\"c\":[3e20,\"z\\\\\"],\"z\":\"drop\"}",
     "{\"d\":[40000000000,\"w\\\"q\"],\"z\":7.75}",
 };
-static const char* const kSharedText =
-    "{\"cfg\":{\"name\":\"shared\\n\",\"vals\":[1,2.5,-3,\"s\"],\"deep\":{\"x\":[true,null,12345678901]}},"
-    "\"list\":[10,20.25,\"thirty\"],\"t\":{\"a\":\"va\",\"b\":\"vb\",\"c\":\"vc\",\"d\":\"vd\"}}";
-static const char* const kSharedFilterText = "{\"a\":[true],\"b\":[true],\"c\":true,\"d\":[true]}";
+// The fixtures are built WITHOUT the parsers and formatters (API calls and a hand-written MessagePack
+// encoder), so that in the ThreadSanitizer pass the first use of those code paths happens in the
+// concurrent threads (a lazily initialised static would be warmed up by a sequential first use).
+inline std::string mpStr(const std::string& x) { return std::string(1, char(0xa0 | x.size())) + x; }
+inline std::string mpF64(double d) {
+  uint64_t u;
+  memcpy(&u, &d, 8);
+  std::string r(1, char(0xcb));
+  for (int i = 7; i >= 0; i--) r.push_back(char(u >> (8 * i)));
+  return r;
+}
+inline std::string mpI64(int64_t v) {
+  std::string r(1, char(0xd3));
+  for (int i = 7; i >= 0; i--) r.push_back(char(uint64_t(v) >> (8 * i)));
+  return r;
+}
+inline std::string mpI16(int v) {
+  std::string r(1, char(0xd1));
+  r.push_back(char((v >> 8) & 255));
+  r.push_back(char(v & 255));
+  return r;
+}
 
 struct Fixtures {
   JsonDocument shared;        // read-only after construction
   JsonDocument sharedFilter;  // read-only after construction
   std::string msgpackIn[4];
   Fixtures() {
-    if (deserializeJson(shared, kSharedText) != DeserializationError::Ok) abort();
-    if (deserializeJson(sharedFilter, kSharedFilterText) != DeserializationError::Ok) abort();
+    // {"cfg":{"name":"shared\n","vals":[1,2.5,-3,"s"],"deep":{"x":[true,null,12345678901]}},
+    //  "list":[10,20.25,"thirty"],"t":{"a":"va","b":"vb","c":"vc","d":"vd"}}
+    JsonObject cfg = shared["cfg"].to<JsonObject>();
+    cfg["name"] = std::string("shared\n");
+    JsonArray vals = cfg["vals"].to<JsonArray>();
+    vals.add(1);
+    vals.add(2.5);
+    vals.add(-3);
+    vals.add(std::string("s"));
+    JsonArray x = cfg["deep"].to<JsonObject>()["x"].to<JsonArray>();
+    x.add(true);
+    x.add<JsonVariant>();
+    x.add(int64_t(12345678901LL));
+    JsonArray list = shared["list"].to<JsonArray>();
+    list.add(10);
+    list.add(20.25);
+    list.add(std::string("thirty"));
+    JsonObject t = shared["t"].to<JsonObject>();
+    for (int v = 0; v < 4; v++) t[std::string(kKey[v])] = std::string("v") + kKey[v];
+    // {"a":[true],"b":[true],"c":true,"d":[true]}
+    sharedFilter["a"].to<JsonArray>().add(true);
+    sharedFilter["b"].to<JsonArray>().add(true);
+    sharedFilter["c"] = true;
+    sharedFilter["d"].to<JsonArray>().add(true);
     shared.shrinkToFit();
     sharedFilter.shrinkToFit();
+    if (shared.overflowed() || sharedFilter.overflowed()) abort();
+    // {"<key>":[<number>,"<string>"],"n":-1000-v}
+    const double numv[3] = {1.5e3, -27.25e-2, 3e20};
+    const char* const strv[4] = {"x\n", "y\t", "z\\", "w\"q"};
     for (int v = 0; v < 4; v++) {
-      JsonDocument d;
-      if (deserializeJson(d, kJsonIn[v]) != DeserializationError::Ok) abort();
-      d["n"] = -1000 - v;
-      serializeMsgPack(d, msgpackIn[v]);
+      std::string m(1, char(0x82));
+      m += mpStr(kKey[v]);
+      m.push_back(char(0x92));
+      m += v < 3 ? mpF64(numv[v]) : mpI64(40000000000LL);
+      m += mpStr(strv[v]);
+      m += mpStr("n") + mpI16(-1000 - v);
+      msgpackIn[v] = m;
     }
   }
 };
@@ -251,6 +298,8 @@ inline std::string bodyC(int v, Allocator* al) {
   doc["d"] = uint64_t(18446744073709551001ULL) + uint64_t(v) * 101;
   doc["e"] = float(1.5f + float(v) * 0.25f);
   doc["f"] = 3.25159265358979 + v * 1.125;
+  doc["h"] = 1.25e+20 * (v + 1);  // positive powers of ten, exponent
+  doc["i"] = 3.5e-9 * (v + 2);    // negative powers of ten
   doc["g"] = std::string("q\"\n") + char('A' + v);
   SeamWriter w1, w2, w3;
   size_t n1 = serializeJson(doc, w1);
@@ -413,6 +462,7 @@ struct Explorer {
   Ctx& C;
   sched::Scheduler S;
   std::unordered_set<uint64_t> orders;  // distinct interleaved seam orders executed by this shard
+  uint64_t canonicalOrders = 0;         // schedules without a seam-less segment (one per distinct seam order)
   bool negative = false;                // seeded wrong oracle (--selftest-negative)
   explicit Explorer(Ctx& c) : C(c), S(sched::kMaxThreads) {}
 
@@ -493,7 +543,20 @@ struct Explorer {
       h = verif::fnv1a(b, 2, h);
     }
     orders.insert(h);
-    if (R.preemptions >= 1) C.nontrivial(h);
+    // A seam order can be produced by several schedules (the last block of a thread passes no seam, so it can be
+    // placed anywhere after the thread's last seam).  Exactly one of them has no seam-less segment: count that one,
+    // which makes the number of distinct seam orders summable over shards.
+    bool canonical = true;
+    for (size_t k = 0; k < R.cuts.size(); k++) {
+      size_t end = k + 1 < R.cuts.size() ? R.cuts[k + 1] : R.trace.size();
+      if (end == R.cuts[k]) canonical = false;
+    }
+    if (canonical) canonicalOrders++;
+    if (R.preemptions >= 1) {
+      uint64_t hs = h;
+      for (uint32_t cut : R.cuts) hs = verif::fnv1a(&cut, sizeof cut, hs);
+      C.nontrivial(hs);  // distinct schedules with at least one delivered preemption
+    }
     C.outcome(T.name + "|segs=" + R.segs);
     C.metrics["states"] += double(R.recs.size() - prefix.size());
     C.metrics["transitions"] += double(R.recs.size());
@@ -538,7 +601,7 @@ inline std::vector<std::string> defaultTuples(bool thorough, int threads) {
     return {"A+B+C", "B+B+B", "C+C+C", "D+D+D", "D+E+B", "B+C+F", "E+E+F", "Bd+Cd+Cd"};
   }
   if (!thorough) return {"A+A", "B+B", "C+C", "B+C", "D+D", "E+E", "F+F", "Bd+Cd"};
-  return {"A+A", "B+B", "C+C", "D+D", "E+E", "F+F", "A+B", "A+C", "B+C", "B+F", "C+D", "D+E", "B+E", "C+F", "A+D", "Bd+Bd", "Cd+Cd", "Bd+Cd"};
+  return {"A+A", "B+B", "C+C", "D+D", "E+E", "F+F", "A+B", "A+C", "B+C", "B+F", "C+D", "D+E", "B+E", "C+F", "A+D", "Bd+Bd", "Cd+Dd", "Bd+Cd"};
 }
 
 inline void runSched(Ctx& C) {
@@ -572,7 +635,12 @@ inline void runSched(Ctx& C) {
     if (!stopped) completed = q;
   }
   if (stopped) C.complete = false;
-  C.metrics["distinct_seam_orders"] += double(X.orders.size());
+  C.metrics["distinct_seam_orders"] += double(X.canonicalOrders);
+  if (C.nshards == 1 && C.only < 0 && C.from == 0 && !stopped && X.canonicalOrders != X.orders.size()) {
+    // unsharded run: the summable count must equal the size of the set of seam orders actually seen
+    C.failKey("harness-selfcheck:distinct-seam-orders", "harness-selfcheck",
+              "canonical schedules " + std::to_string(X.canonicalOrders) + " != distinct seam orders " + std::to_string(X.orders.size()));
+  }
   std::string seams;
   for (auto& T : tuples) {
     seams += T.name + ":";
@@ -593,19 +661,22 @@ inline void runSched(Ctx& C) {
 }
 
 // ------------------------------------------------------------------ free-running ThreadSanitizer pass
+//
+// Every group of bodies runs in a freshly forked child (several "cold rounds" per group): the child
+// builds the fixtures, releases 4 threads from a barrier, and only AFTERWARDS computes the sequential
+// references.  So the first execution of every library path happens concurrently, which is what a
+// lazily initialised static needs in order to race.  The parent stays single-threaded (fork-safe).
 
 struct FreeThread {
   pthread_t th;
   int id = 0;
   int iters = 0;
   std::vector<BodySpec> seq;  // bodies this thread cycles through
-  const std::map<std::string, std::string>* refs = nullptr;
   pthread_barrier_t* barrier = nullptr;
-  std::vector<std::string> errors;  // private to the thread until joined
+  std::map<std::string, std::string> first;  // first result per body; private to the thread until joined
+  std::vector<std::string> errors;           // private to the thread until joined
   uint64_t done = 0;
 };
-
-inline std::string refKey(const BodySpec& b, int v) { return b.name + "/" + std::to_string(v); }
 
 inline void* freeMain(void* p) {
   FreeThread* ft = static_cast<FreeThread*>(p);
@@ -613,65 +684,142 @@ inline void* freeMain(void* p) {
   for (int i = 0; i < ft->iters; i++) {
     const BodySpec& b = ft->seq[size_t(i) % ft->seq.size()];
     std::string got = runBody(b, ft->id);
-    const std::string& want = ft->refs->at(refKey(b, ft->id));
-    if (got != want && ft->errors.size() < 5)
-      ft->errors.push_back("thread " + std::to_string(ft->id) + " body " + b.name + " iteration " + std::to_string(i) + ": " +
-                           diffAt(got, want));
+    auto it = ft->first.find(b.name);
+    if (it == ft->first.end())
+      ft->first[b.name] = got;
+    else if (got != it->second && ft->errors.size() < 5)
+      ft->errors.push_back("thread " + std::to_string(ft->id) + " body " + b.name + " iteration " + std::to_string(i) +
+                           " differs from its first iteration: " + diffAt(got, it->second));
     ft->done++;
   }
   return nullptr;
 }
 
-inline void runTsan(Ctx& C) {
+inline std::vector<BodySpec> parseGroup(const std::string& g) {
+  std::vector<BodySpec> seq;
+  std::stringstream ss(g);
+  std::string tok;
+  while (std::getline(ss, tok, '+'))
+    if (!tok.empty()) seq.push_back(BodySpec{tok[0], tok.size() == 2 && tok[1] == 'd', tok});
+  return seq;
+}
+
+// runs in the forked child; writes "D <n>\n" and "E <text>\n" lines to fd
+inline void tsanChild(const std::vector<BodySpec>& seq, int nthreads, int iters, int fd) {
   fx();
+  pthread_barrier_t barrier;
+  pthread_barrier_init(&barrier, nullptr, unsigned(nthreads));
+  std::vector<FreeThread> th{size_t(nthreads)};
+  for (int t = 0; t < nthreads; t++) {
+    th[size_t(t)].id = t;
+    th[size_t(t)].iters = iters;
+    th[size_t(t)].barrier = &barrier;
+    // thread t starts its cycle at body t so that different kinds overlap as well
+    for (size_t k = 0; k < seq.size(); k++) th[size_t(t)].seq.push_back(seq[(k + size_t(t)) % seq.size()]);
+  }
+  for (int t = 0; t < nthreads; t++) pthread_create(&th[size_t(t)].th, nullptr, freeMain, &th[size_t(t)]);
+  for (int t = 0; t < nthreads; t++) pthread_join(th[size_t(t)].th, nullptr);
+  pthread_barrier_destroy(&barrier);
+  std::string report;
+  uint64_t done = 0;
+  for (auto& t : th) {
+    done += t.done;
+    for (auto& e : t.errors) report += "E " + e + "\n";
+    // sequential reference, computed after the concurrent phase
+    for (auto& kv : t.first) {
+      BodySpec b = parseGroup(kv.first)[0];
+      std::string want = runBody(b, t.id);
+      if (kv.second != want)
+        report += "E thread " + std::to_string(t.id) + " body " + b.name + " first concurrent execution differs from the sequential run: " +
+                  diffAt(kv.second, want) + "\n";
+    }
+  }
+  report += "D " + std::to_string(done) + "\n";
+  size_t off = 0;
+  while (off < report.size()) {
+    ssize_t w = ::write(fd, report.data() + off, report.size() - off);
+    if (w <= 0) break;
+    off += size_t(w);
+  }
+}
+
+inline void runTsan(Ctx& C) {
   const int nthreads = 4;
   int iters = atoi(C.opt("iters", C.thorough() ? "20000" : "2000").c_str());
+  int rounds = atoi(C.opt("rounds", C.thorough() ? "10" : "4").c_str());
+  if (rounds < 1) rounds = 1;
   std::vector<std::string> groups = splitList(C.opt("groups", ""));
   if (groups.empty())
-    groups = {"A", "B", "C", "D", "E", "F", "Bd", "Cd", "Dd", "A+B+C+D+E+F", "Ad+Bd+Cd+Dd+Ed+Fd", "B+C", "D+E"};
+    groups = {"B", "C", "A", "D", "E", "F", "Bd", "Cd", "Dd", "A+B+C+D+E+F", "Ad+Bd+Cd+Dd+Ed+Fd", "B+C", "D+E", "C+F"};
+  bool inProcess = C.flag("no-fork");  // debugging aid
   for (auto& g : groups) {
     if (!C.take()) continue;
     if (C.expired()) break;
-    std::vector<BodySpec> seq;
-    {
-      std::stringstream ss(g);
-      std::string tok;
-      while (std::getline(ss, tok, '+')) {
-        BodySpec b{tok[0], tok.size() == 2 && tok[1] == 'd', tok};
-        seq.push_back(b);
-      }
-    }
-    // sequential references first (main thread, nothing else running)
-    std::map<std::string, std::string> refs;
-    for (auto& b : seq)
-      for (int v = 0; v < nthreads; v++) refs[refKey(b, v)] = runBody(b, v);
-    C.begin("tsan:bodies=" + g + "|threads=" + std::to_string(nthreads) + "|iters=" + std::to_string(iters));
-    pthread_barrier_t barrier;
-    pthread_barrier_init(&barrier, nullptr, nthreads);
-    std::vector<FreeThread> th(nthreads);
-    for (int t = 0; t < nthreads; t++) {
-      th[size_t(t)].id = t;
-      th[size_t(t)].iters = iters;
-      th[size_t(t)].refs = &refs;
-      th[size_t(t)].barrier = &barrier;
-      // thread t starts its cycle at body t so that different kinds overlap as well
-      for (size_t k = 0; k < seq.size(); k++) th[size_t(t)].seq.push_back(seq[(k + size_t(t)) % seq.size()]);
-    }
-    for (int t = 0; t < nthreads; t++) pthread_create(&th[size_t(t)].th, nullptr, freeMain, &th[size_t(t)]);
-    for (int t = 0; t < nthreads; t++) pthread_join(th[size_t(t)].th, nullptr);
-    pthread_barrier_destroy(&barrier);
+    std::vector<BodySpec> seq = parseGroup(g);
+    C.begin("tsan:bodies=" + g + "|threads=" + std::to_string(nthreads) + "|iters=" + std::to_string(iters) +
+            "|rounds=" + std::to_string(rounds));
     uint64_t done = 0;
-    for (auto& t : th) {
-      done += t.done;
-      for (auto& e : t.errors) C.fail("thread-result", e);
+    for (int r = 0; r < rounds; r++) {
+      int per = iters / rounds + (r < iters % rounds ? 1 : 0);
+      if (per == 0) continue;
+      std::string report;
+      if (inProcess) {
+        int fds[2];
+        if (pipe(fds) != 0) _exit(3);
+        tsanChild(seq, nthreads, per, fds[1]);
+        close(fds[1]);
+        char buf[4096];
+        ssize_t k;
+        while ((k = ::read(fds[0], buf, sizeof buf)) > 0) report.append(buf, size_t(k));
+        close(fds[0]);
+      } else {
+        fflush(stdout);
+        fflush(stderr);
+        int fds[2];
+        if (pipe(fds) != 0) _exit(3);
+        pid_t pid = fork();
+        if (pid < 0) _exit(3);
+        if (pid == 0) {
+          close(fds[0]);
+          tsanChild(seq, nthreads, per, fds[1]);
+          close(fds[1]);
+          _exit(0);
+        }
+        close(fds[1]);
+        char buf[4096];
+        ssize_t k;
+        while ((k = ::read(fds[0], buf, sizeof buf)) > 0) report.append(buf, size_t(k));
+        close(fds[0]);
+        int st = 0;
+        waitpid(pid, &st, 0);
+        if (!WIFEXITED(st) || WEXITSTATUS(st) != 0) {
+          // a ThreadSanitizer report (exitcode=66) or a crash in the child: die the same way, the
+          // driver attributes it to the journalled case and restarts after it
+          fprintf(stderr, "tsan child for group %s round %d ended with status 0x%x\n", g.c_str(), r, st);
+          fflush(stderr);
+          _exit(WIFEXITED(st) ? WEXITSTATUS(st) : 70);
+        }
+      }
+      std::stringstream ss(report);
+      std::string line;
+      bool sawDone = false;
+      while (std::getline(ss, line)) {
+        if (line.compare(0, 2, "E ") == 0) C.fail("thread-result", line.substr(2));
+        if (line.compare(0, 2, "D ") == 0) {
+          done += strtoull(line.c_str() + 2, nullptr, 10);
+          sawDone = true;
+        }
+      }
+      if (!sawDone) C.fail("harness-tsan", "the child of round " + std::to_string(r) + " sent no report");
     }
     C.metrics["tsan_body_executions"] += double(done);
     C.outcome("tsan:" + g + ":clean");
     C.nontrivial();
     C.end();
   }
-  C.bound("ThreadSanitizer monitor (not an enumeration): " + std::to_string(nthreads) + " free-running OS threads x " +
-          std::to_string(iters) + " body executions per group, halt_on_error=1");
+  C.bound("ThreadSanitizer monitor (not an enumeration): per group of bodies " + std::to_string(rounds) +
+          " cold processes x " + std::to_string(nthreads) + " free-running OS threads, " + std::to_string(iters) +
+          " body executions per thread in total, halt_on_error=1");
 }
 
 // ------------------------------------------------------------------ self-test (Appendix D)
